@@ -94,7 +94,7 @@ fn run(c: &mut Case, sc: &Scenario, opts: RunOpts) -> bool {
 /// stream records, with bodies of 0..600 bytes.
 fn unknown_types(c: &mut Case) {
     let t = c.index as u8;
-    if wire::known_type(t) {
+    if wire::known_type(t) || (c.ctx.miri() && t % 41 != 0) {
         return;
     }
     let mut bytes = Vec::new();
@@ -131,7 +131,7 @@ fn unknown_types(c: &mut Case) {
 /// One scenario with every reply-eliciting record split across two reads at EVERY offset.
 fn split_sweep(c: &mut Case) {
     let sc = gen_scenario(&mut c.rng, false);
-    if sc.bytes.len() > 1500 {
+    if sc.bytes.len() > 1500 || (c.ctx.miri() && sc.bytes.len() > 260) {
         return;
     }
     let pol = Policy { dest_pct: 50, dest_max: 64, consume_pct: 50, compress_pct: 30, consume_out_pct: 50 };
@@ -156,7 +156,7 @@ pub fn run_all(ctx: &Ctx, evidence: Option<&PathBuf>) -> i32 {
         }
     });
     ctx.run_fixed("split-sweep-directed", ctx.dn(12), split_sweep);
-    let n = ctx.size(40_000, 4_000_000);
+    let n = ctx.size3(40_000, 4_000_000, 8);
     ctx.run_cases("replies", n, |c| {
         let big = ctx.scale == Scale::Full && c.rng.chance(1, 8);
         let sc = gen_scenario(&mut c.rng, big);
@@ -168,7 +168,7 @@ pub fn run_all(ctx: &Ctx, evidence: Option<&PathBuf>) -> i32 {
             c.l.sample(sc.desc.clone());
         }
     });
-    ctx.run_cases("split-sweep", ctx.size(60, 6_000), split_sweep);
+    ctx.run_cases("split-sweep", ctx.size3(60, 6_000, 6), split_sweep);
     ctx.gate("unknown_type_values", 245);
     ctx.gate("replies_checked", 1000);
     ctx.gate("split_positions", 2000);
